@@ -290,7 +290,10 @@ func blockNames(recs []samRec) []string {
 }
 
 func randWindow(r *RNG, L int) (int, int) {
-	switch r.Intn(4) {
+	switch r.Intn(6) {
+	case 4, 5: // a window that names the whole reference: still a cut in reference coordinates (flanking insertions go)
+		w := [][2]int{{1, -1}, {-1, L}, {1, L}}[r.Intn(3)]
+		return w[0], w[1]
 	case 0:
 		return r.Range(1, L), -1
 	case 1:
